@@ -440,7 +440,7 @@ def _job(job):
     st = explorer.explore(factory, case, bound, max_execs=max_execs, max_passes=1500, on_exec=on_exec)
     part.count("choice_points", st["choice_points"])
     if st["truncated"]:
-        part.cap(f"execution cap {max_execs} hit for {name} at bound {bound}")
+        part.cap(f"execution cap {max_execs} hit for {name} at bound {bound} (complete up to bound {st['completed_bound']}, {st['executions']} executions reported)")
     if len(part.samples) < 1:
         part.sample({"case": name, "bound": bound, "executions": st["executions"]})
     return part
@@ -459,7 +459,9 @@ def run(ctx):
     ]
     bound = 2 if ctx.quick else 3
     cs = cases(ctx.quick)
-    jobs = [(c, bound, 80000) for c in cs]
+    # thorough = bound 3 under an execution cap per history (a cap that is hit is reported in the evidence; everything
+    # with <= 2 deviations is covered completely by the DFS order before the cap can bite)
+    jobs = [(c, bound, 80000 if ctx.quick else 25000) for c in cs]
     for part in ctx.pmap(_job, jobs):
         ctx.merge(part)
     ctx.notes["deviation_bound"] = bound
